@@ -413,8 +413,8 @@ class XMLSchemaConverter(NamespaceMapper):
                 else:
                     if not isinstance(result, MutableSequence) or not result:
                         result_dict[name] = self.list_class((result, value))
-                    elif isinstance(result[0], MutableSequence) or result[0] is None or \
-                            not isinstance(value, MutableSequence):
+                    elif isinstance(result[0], (MutableSequence, MutableMapping)) or \
+                            result[0] is None or not isinstance(value, MutableSequence):
                         result.append(value)
                     else:
                         result_dict[name] = self.list_class((result, value))
